@@ -856,6 +856,12 @@ pub fn op_tree_hist<B: Be>(mut doc: B, steps: &[&str]) -> Option<String> {
                     let r = doc.assign(p, v.clone());
                     if let Err(e) = &r {
                         law_wf.res(err_wellformed(p, e.position(), e.offset()).map_err(|w| format!("step{si}_assign_{w}")));
+                        if let assign::Error::FailedToParseIndex { source, position, .. } = e {
+                            // the reason quotes the token as it is written in the pointer
+                            if let Some(tok) = split_enc(p.as_str()).get(*position) {
+                                law_wf.res(crate::serve::ops_text::pie_truthful(source, tok).map_err(|w| format!("step{si}_assign_reason_{w}")));
+                            }
+                        }
                     }
                     fmt_assign_r(&r)
                 })
@@ -870,6 +876,11 @@ pub fn op_tree_hist<B: Be>(mut doc: B, steps: &[&str]) -> Option<String> {
                     Ok(n) => format!("ok({})", fmt_loc_of(&doc, n as *const B)),
                     Err(e) => {
                         law_wf.res(err_wellformed(p, e.position(), e.offset()).map_err(|w| format!("step{si}_resolve_{w}")));
+                        if let resolve::Error::FailedToParseIndex { source, position, .. } = &e {
+                            if let Some(tok) = split_enc(p.as_str()).get(*position) {
+                                law_wf.res(crate::serve::ops_text::pie_truthful(source, tok).map_err(|w| format!("step{si}_resolve_reason_{w}")));
+                            }
+                        }
                         format!("err({})", kind_of_resolve(&e).s())
                     }
                 })
